@@ -6,24 +6,30 @@
    the content of `reusable_names` after registration, `extend nm rp` the final
    `names` when reusable_names is iterated in order `rp`.  `reusable_name_id` is
    what fvar.rs / stat.rs use to pick the id for a string (None = the unwrap()
-   panics).  `ids_reserved nm` = the source supplied no name id above 255. *)
+   panics).  `NoDup (map fst nm)`: nm is a map (one record per key).
+
+   State after the repairs of name-alloc-hash-order, fvar-instance-reserved-id,
+   source-name-id-collision, stat-elided-id-shifted and fea-size-name-wrong: the
+   refutation theorems of those classes are gone, their statements now hold
+   without the side conditions they needed.  The harness reports each class
+   again under its key should it return. *)
 From Coq Require Import List NArith ZArith Bool Permutation Lia.
 From FV.C18 Require Import Model Proofs ProofsFea ProofsNb.
 Import ListNotations.
 Open Scope N_scope.
 
 (* ------------------------------------------------------------------------- *)
-(* 1. fvar / STAT ids exist, are >= 256 where required, and carry the source string *)
+(* 1. fvar / STAT ids exist, are allowed where they are used, and carry the source string *)
 
-(* For every source name map with reserved ids only, every axis list, every
-   instance list and EVERY iteration order of reusable_names: the id fvar and
-   STAT pick for an axis label exists, is >= 256 and its record is the label;
+(* For EVERY source name map (any ids, including ids above 255), every axis list,
+   every instance list and EVERY iteration order of reusable_names: the id fvar
+   and STAT pick for an axis label exists, is >= 256 and its record is the label;
    the subfamily id of every kept instance exists, its record is the instance
-   name, and it is >= 256 unless the instance is the default one; PostScript
+   name, and it is >= 256 or, at the default instance only, 2 or 17; PostScript
    name ids exist, are >= 256 and carry the PostScript name.  No unwrap() in
    fvar.rs / stat.rs can fail. *)
 Theorem used_ids_exist : forall nm axes insts rp,
-  ids_reserved nm -> Permutation rp (alloc nm axes insts) ->
+  NoDup (map fst nm) -> Permutation rp (alloc nm axes insts) ->
   let fin := extend nm rp in
   (forall a, In a (variable_axes axes) ->
      exists id enc, reusable_name_id fin (a_label a) false = Some id
@@ -31,7 +37,7 @@ Theorem used_ids_exist : forall nm axes insts rp,
   /\ (forall i, In i (kept_instances axes insts) ->
      exists id enc, reusable_name_id fin (i_name i) (is_default axes i) = Some id
                     /\ In ((id, enc), i_name i) fin
-                    /\ (is_default axes i = false -> 256 <= id))
+                    /\ instance_id_allowed (is_default axes i) id)
   /\ (forall i p, In i (kept_instances axes insts) -> i_ps i = Some p ->
      exists id enc, reusable_name_id fin p false = Some id
                     /\ 256 <= id /\ In ((id, enc), p) fin).
@@ -44,123 +50,107 @@ Definition ex_insts : list inst :=
   [{| i_name := [82;101;103;117;108;97;114]; i_ps := None; i_loc := [400%Z] |};
    {| i_name := [66]; i_ps := Some [70;45;66]; i_loc := [700%Z] |}].
 Example used_ids_exist_nonvacuous :
-  ids_reserved ex_nm
+  NoDup (map fst ex_nm)
   /\ fvar_axis_ids (extend ex_nm (alloc ex_nm ex_axes ex_insts)) ex_axes = [Some 256]
   /\ fvar_inst_ids (extend ex_nm (alloc ex_nm ex_axes ex_insts)) ex_axes ex_insts
      = [(Some 2, Some (Some NO_PS)); (Some 257, Some (Some 258))].
-Proof. split; [repeat constructor; simpl; discriminate|split; reflexivity]. Qed.
+Proof. split; [repeat constructor; simpl; intuition discriminate|split; reflexivity]. Qed.
+
+(* the former failing inputs, now on the right side of the theorem: a default
+   instance named like the family gets an id >= 256; a source record 256 keeps its
+   id and the axis label gets 257 *)
+Example former_refutations_now_hold :
+  fvar_inst_ids (extend [((1, 1), [70]); ((2, 1), [82])]
+                   (alloc [((1, 1), [70]); ((2, 1), [82])] ex_axes [{| i_name := [70]; i_ps := None; i_loc := [400%Z] |}]))
+     ex_axes [{| i_name := [70]; i_ps := None; i_loc := [400%Z] |}] = [(Some 257, None)]
+  /\ let nm := [((1, 1), [70]); ((2, 1), [82]); ((256, 1), [83])] in
+     lookup (256, 1) (extend nm (alloc nm ex_axes [])) = Some [83]
+     /\ fvar_axis_ids (extend nm (alloc nm ex_axes [])) ex_axes = [Some 257].
+Proof. repeat split; reflexivity. Qed.
+
+(* Ids below 256 are used only where the specification allows — unconditionally:
+   whatever id reusable_name_id returns for an instance is >= 256, or 2 / 17 and
+   then the instance is the default one; for axes and PostScript names it is >= 256. *)
+Theorem instance_ids_allowed : forall nm s allow id,
+  reusable_name_id nm s allow = Some id ->
+  instance_id_allowed allow id /\ (allow = false -> 256 <= id).
+Proof.
+  intros nm s allow id H. destruct (rni_in _ _ _ _ H) as [_ A]. split.
+  - apply id_allowed_spec. exact A.
+  - intros ->. apply id_allowed_false. exact A.
+Qed.
+Print Assumptions instance_ids_allowed.
+
+(* No source record is lost or changed by registration, whatever ids the source
+   uses (UFO openTypeNameRecords can supply ids above 255), and the final table
+   has one record per key — for every iteration order. *)
+Theorem source_records_kept : forall nm axes insts rp,
+  NoDup (map fst nm) -> Permutation rp (alloc nm axes insts) ->
+  (forall k s, In (k, s) nm -> In (k, s) (extend nm rp))
+  /\ NoDup (map fst (extend nm rp)).
+Proof.
+  intros nm axes insts rp ND P. split.
+  - intros k s H. apply (Proofs.source_records_kept nm axes insts rp k s ND P H).
+  - apply (final_keys_nodup nm axes insts rp ND P).
+Qed.
+Print Assumptions source_records_kept.
 
 (* Every record of the final IR table is non-empty when the source strings, the
    labels and the instance names are. *)
 Theorem final_records_nonempty : forall nm axes insts rp,
-  ids_reserved nm -> Permutation rp (alloc nm axes insts) ->
+  NoDup (map fst nm) -> Permutation rp (alloc nm axes insts) ->
   Forall (fun e => snd e <> []) nm ->
   Forall (fun s => s <> []) (map fst (alloc nm axes insts)) ->
   Forall (fun e => snd e <> []) (extend nm rp).
 Proof. exact Proofs.final_records_nonempty. Qed.
 Print Assumptions final_records_nonempty.
 
-(* The only strings registration adds are axis labels, instance names and
-   instance PostScript names of the source. *)
+(* The only strings in reusable_names are source strings, axis labels, instance
+   names and instance PostScript names. *)
 Theorem registered_strings_are_source : forall nm axes insts s,
-  ids_reserved nm -> In s (map fst (alloc nm axes insts)) ->
-  (exists a, In a (variable_axes axes) /\ a_label a = s)
+  In s (map fst (alloc nm axes insts)) ->
+  (exists k, In (k, s) nm)
+  \/ (exists a, In a (variable_axes axes) /\ a_label a = s)
   \/ (exists i, In i (kept_instances axes insts) /\ (i_name i = s \/ i_ps i = Some s)).
 Proof. exact Proofs.registered_strings_are_source. Qed.
 Print Assumptions registered_strings_are_source.
 
 (* ------------------------------------------------------------------------- *)
-(* 2. ids below 256 only where the specification allows                        *)
+(* 2. the result depends on nothing but the source                             *)
 
-(* REFUTED as stated: a default instance whose name equals the family name
-   (id 1) gets subfamilyNameID 1 — the model picks the smallest id carrying the
-   string.  (Real code: reproduced by the harness, key fvar-instance-reserved-id.) *)
-Theorem instance_ids_allowed_refuted : exists nm axes insts i,
-  ids_reserved nm /\ In i (kept_instances axes insts)
-  /\ reusable_name_id (extend nm (alloc nm axes insts)) (i_name i) (is_default axes i) = Some 1
-  /\ ~ instance_id_allowed (is_default axes i) 1.
-Proof.
-  exists [((1, 1), [70]); ((2, 1), [82])], ex_axes,
-    [{| i_name := [70]; i_ps := None; i_loc := [400%Z] |}],
-    {| i_name := [70]; i_ps := None; i_loc := [400%Z] |}.
-  split; [repeat constructor; simpl; discriminate|]. split; [left; reflexivity|]. split; [reflexivity|].
-  intros [H|[_ [H|H]]]; vm_compute in H; try discriminate. apply H. reflexivity.
-Qed.
-Print Assumptions instance_ids_allowed_refuted.
-
-(* Outside that class: when the only source records equal to the instance name
-   are ids 2 / 17, the id is allowed, for every iteration order. *)
-Theorem instance_ids_allowed_outside : forall nm axes insts rp i,
-  ids_reserved nm -> Permutation rp (alloc nm axes insts) ->
-  In i (kept_instances axes insts) ->
-  (forall k, In (k, i_name i) nm -> fst k = 2 \/ fst k = 17) ->
-  exists id, reusable_name_id (extend nm rp) (i_name i) (is_default axes i) = Some id
-             /\ instance_id_allowed (is_default axes i) id.
-Proof. exact Proofs.instance_ids_allowed_outside. Qed.
-Print Assumptions instance_ids_allowed_outside.
-
-Example instance_ids_allowed_outside_nonvacuous :
-  forall k, In (k, [82;101;103;117;108;97;114]) ex_nm -> fst k = 2 \/ fst k = 17.
-Proof. intros k [H|[H|[]]]; inversion H; auto. Qed.
-
-(* ------------------------------------------------------------------------- *)
-(* 3. the result depends on nothing but the source                             *)
-
-(* REFUTED as stated (DESIGN 6.3): family, style and default instance all
-   "R": iterating the same map in two orders registers different ids. *)
-Theorem alloc_perm_invariant_refuted : exists nm nm' axes insts,
-  Permutation nm nm' /\ ids_reserved nm
-  /\ alloc nm axes insts <> alloc nm' axes insts
-  /\ lookup (257, 1) (extend nm (alloc nm axes insts)) <> lookup (257, 1) (extend nm' (alloc nm' axes insts)).
-Proof.
-  exists [((1, 1), [82]); ((2, 1), [82])], [((2, 1), [82]); ((1, 1), [82])], ex_axes,
-    [{| i_name := [82]; i_ps := None; i_loc := [400%Z] |}; {| i_name := [66]; i_ps := None; i_loc := [700%Z] |}].
-  split; [apply perm_swap|]. split; [repeat constructor; simpl; discriminate|].
-  split; intro H; vm_compute in H; discriminate.
-Qed.
-Print Assumptions alloc_perm_invariant_refuted.
-
-(* Outside that class (no default-instance name that occurs both under id 2/17
-   and under another id): for every iteration order of the source map and every
-   iteration order of reusable_names the final table is the same set of records,
-   and the ids fvar / STAT derive from it are the same. *)
+(* For every iteration order of the source map and every iteration order of
+   reusable_names — no side condition on coinciding strings or on the ids the
+   source uses — the newly registered entries are the same list, the final table
+   is the same set of records, and the ids fvar / STAT derive from it are the same. *)
 Theorem names_depend_only_on_source : forall nm nm' axes insts rp rp',
-  Permutation nm nm' -> ids_reserved nm -> no_coincidence nm axes insts ->
+  Permutation nm nm' -> NoDup (map fst nm) ->
   Permutation rp (alloc nm axes insts) -> Permutation rp' (alloc nm' axes insts) ->
-  alloc nm' axes insts = alloc nm axes insts
+  filter (newb nm') (alloc nm' axes insts) = filter (newb nm) (alloc nm axes insts)
   /\ Permutation (extend nm' rp') (extend nm rp)
   /\ forall s allow, reusable_name_id (extend nm' rp') s allow = reusable_name_id (extend nm rp) s allow.
 Proof.
-  intros nm nm' axes insts rp rp' P R C Hp Hp'.
-  split; [apply alloc_perm_invariant; assumption|].
-  pose proof (extend_perm_invariant nm nm' axes insts rp rp' P R C Hp Hp') as E.
+  intros nm nm' axes insts rp rp' P ND Hp Hp'.
+  split; [apply alloc_new_perm; exact P|].
+  pose proof (extend_perm_invariant nm nm' axes insts rp rp' P ND Hp Hp') as E.
   split; [exact E|]. intros s allow. apply rni_perm. exact E.
 Qed.
 Print Assumptions names_depend_only_on_source.
 
-Example names_depend_only_on_source_nonvacuous : no_coincidence ex_nm ex_axes ex_insts.
+(* the input of DESIGN 6.3 (family, style and default instance all "R"): both
+   iteration orders now register the same entries *)
+Example names_depend_only_on_source_nonvacuous :
+  let nm := [((1, 1), [82]); ((2, 1), [82])] in
+  let nm' := [((2, 1), [82]); ((1, 1), [82])] in
+  let insts := [{| i_name := [82]; i_ps := None; i_loc := [400%Z] |}; {| i_name := [66]; i_ps := None; i_loc := [700%Z] |}] in
+  Permutation nm nm' /\ NoDup (map fst nm)
+  /\ alloc nm ex_axes insts = alloc nm' ex_axes insts
+  /\ alloc nm ex_axes insts = [([87], (256, 1)); ([66], (257, 1))].
 Proof.
-  intros i [<-|[<-|[]]] D; [|discriminate]. left. intros k [H|[H|[]]]; inversion H; auto.
+  split; [apply perm_swap|]. split; [repeat constructor; simpl; intuition discriminate|]. split; reflexivity.
 Qed.
-
-(* REFUTED: when the source itself supplies a name id above 255 (UFO
-   openTypeNameRecords), registration hands out the same id again; depending on
-   the iteration order the source's record is overwritten, or the label loses
-   its record and fvar's unwrap() panics. *)
-Theorem source_ids_above_255_refuted : exists nm axes insts rp1 rp2,
-  Permutation rp1 (alloc nm axes insts) /\ Permutation rp2 (alloc nm axes insts)
-  /\ lookup (256, 1) nm = Some [83]
-  /\ lookup (256, 1) (extend nm rp1) = Some [87]
-  /\ fvar_axis_ids (extend nm rp2) axes = [None].
-Proof.
-  exists [((1, 1), [70]); ((2, 1), [82]); ((256, 1), [83])], ex_axes, [],
-    [([83], (256, 1)); ([87], (256, 1))], [([87], (256, 1)); ([83], (256, 1))].
-  split; [apply Permutation_refl|]. split; [apply perm_swap|]. repeat split; reflexivity.
-Qed.
-Print Assumptions source_ids_above_255_refuted.
 
 (* ------------------------------------------------------------------------- *)
-(* 4. names supplied through feature code                                      *)
+(* 3. names supplied through feature code                                      *)
 
 (* fea-rs gives every anonymous name group (featureNames, cvParameters labels,
    sizemenuname, STAT names) that has a non-empty string a fresh id, in order,
@@ -190,7 +180,7 @@ Qed.
 
 (* REFUTED without the non-empty hypothesis: a group whose strings are all
    empty gets an id that is handed out again, so two features share one id and
-   the first shows the second's name. *)
+   the first shows the second's name.  (Real code: known finding fea-name-id-shared.) *)
 Theorem fea_empty_group_refuted : exists prog b r,
   fea_alloc (fnb_empty, refs_empty) prog = Some (b, r)
   /\ r_adj r = [256; 256] /\ specs_under b 256 = [((3, 1, 1033), [83])].
@@ -202,8 +192,10 @@ Print Assumptions fea_empty_group_refuted.
 
 (* After remap_name_ids and merge_name_records: every FEA record is in the final
    table under its adjusted id (FEA wins on reserved ids, as documented), no IR
-   record with id >= 256 (axis / instance names) is touched, and the references
-   that go through adjust_id move with their records. *)
+   record with id >= 256 (axis / instance names) is touched, and EVERY reference —
+   stylistic-set / character-variant / STAT ids, the size feature's name entry and
+   the STAT elided fallback id — is moved by the same adjust_id as the records, so
+   reserved ids stay put and the others follow their records. *)
 Theorem fea_names_survive_merge : forall fin recs r,
   255 < max_name_id fin ->
   let off := max_name_id fin - 255 in
@@ -214,7 +206,9 @@ Theorem fea_names_survive_merge : forall fin recs r,
   let out := merge_records fin (Some recs') in
   (forall p e l id s, In ((p, e, l, id), s) recs -> In ((p, e, l, adjust_id off id), s) out)
   /\ (forall k s, In (k, s) fin -> 256 <= fst k -> In ((3, snd k, 0x409, fst k), s) out)
-  /\ r_adj r' = map (adjust_id off) (r_adj r).
+  /\ r_adj r' = map (adjust_id off) (r_adj r)
+  /\ r_size r' = map (adjust_id off) (r_size r)
+  /\ r_elided r' = option_map (adjust_id off) (r_elided r).
 Proof. exact ProofsFea.remap_merge_sound. Qed.
 Print Assumptions fea_names_survive_merge.
 
@@ -235,34 +229,30 @@ Theorem static_font_refs_intact : forall fin b r,
 Proof. exact ProofsFea.static_no_remap. Qed.
 Print Assumptions static_font_refs_intact.
 
-(* REFUTED for the size feature: remap_name_ids does not touch
-   FeatureParams::Size, so in a variable font name_entry keeps the pre-shift id
-   and points at an axis / instance name. *)
-Theorem size_ref_refuted : exists fin prog b r,
-  fea_alloc (fnb_empty, refs_empty) prog = Some (b, r)
-  /\ r_size (snd (fea_remapped fin b r)) = [256]
-  /\ strings_of_id (final_names fin (fst (fea_remapped fin b r)) None) 256 = [[87]]
-  /\ strings_of_id (final_names fin (fst (fea_remapped fin b r)) None) 258 = [[84]].
-Proof.
-  exists ex_fin, [(GSize, [((3, 1, 1033), [84])])]. eexists. eexists.
-  split; [reflexivity|]. repeat split; reflexivity.
-Qed.
-Print Assumptions size_ref_refuted.
+(* the former failing inputs: the size name entry and a reserved elided fallback id *)
+Example size_and_elided_follow_their_records :
+  (let prog := [(GSize, [((3, 1, 1033), [84])])] in
+   match fea_alloc (fnb_empty, refs_empty) prog with
+   | Some (b, r) =>
+       r_size (snd (fea_remapped ex_fin b r)) = [258]
+       /\ strings_of_id (final_names ex_fin (fst (fea_remapped ex_fin b r)) None) 258 = [[84]]
+   | None => False
+   end)
+  /\ (let prog := [(GExplicit 8, [((3, 1, 1033), [82])]); (GElidedId 8, []); (GAdj, [((3, 1, 1033), [87])])] in
+      match fea_alloc (fnb_empty, refs_empty) prog with
+      | Some (b, r) => r_elided (snd (fea_remapped ex_fin b r)) = Some 8
+      | None => False
+      end).
+Proof. split; [split; reflexivity|reflexivity]. Qed.
 
-(* REFUTED for `ElidedFallbackNameID <reserved id>`: the STAT elided fallback id
-   is shifted even when it is a reserved id (2 becomes 2 + offset). *)
-Theorem elided_ref_refuted : exists fin prog b r,
-  fea_alloc (fnb_empty, refs_empty) prog = Some (b, r)
-  /\ r_elided r = Some 2
-  /\ r_elided (snd (fea_remapped fin b r)) = Some 4.
-Proof.
-  exists ex_fin, [(GExplicit 2, [((3, 1, 1033), [82])]); (GElidedId 2, []); (GAdj, [((3, 1, 1033), [87])])].
-  eexists. eexists. split; [reflexivity|]. split; reflexivity.
-Qed.
-Print Assumptions elided_ref_refuted.
+(* An ElidedFallbackNameID the feature file's own name table does not declare makes
+   fea-rs panic (fea_alloc = None).  Known finding fea-stat-elided-id-panic. *)
+Example elided_id_not_in_fea_names_panics :
+  fea_alloc (fnb_empty, refs_empty) [(GElidedId 2, []); (GAdj, [((3, 1, 1033), [87])])] = None.
+Proof. reflexivity. Qed.
 
 (* ------------------------------------------------------------------------- *)
-(* 5. family / style / version / unique id follow the documented fallbacks      *)
+(* 4. family / style / version / unique id follow the documented fallbacks      *)
 
 (* For every sequence of `add` calls that names each id at most once, every
    version and vendor: the table NameBuilder::build produces (two hash maps,
@@ -283,13 +273,13 @@ Theorem fallback_chain_table : forall adds major minor vendor k v,
 Proof. exact ProofsNb.nb_run_spec. Qed.
 Print Assumptions fallback_chain_table.
 
-(* Glue: the table NameBuilder produces from a source that names each id once and
-   uses reserved ids only is a legal input of the registration theorems above
-   (reserved ids, no empty record), so for such a source every id fvar / STAT use
-   exists, is >= 256 where required and carries the source string — from fontinfo
-   fields to fvar, for every HashMap iteration order. *)
+(* Glue: the table NameBuilder produces from a source that names each id once is
+   a legal input of the registration theorems above (one record per key, no empty
+   record), so for such a source every id fvar / STAT use exists, is allowed where
+   it is used and carries the source string — from fontinfo fields to fvar, for
+   every HashMap iteration order, whatever ids the source uses. *)
 Theorem source_to_fvar_ids_exist : forall adds major minor vendor axes insts rp,
-  NoDup (map fst adds) -> Forall (fun a => fst a <= 255) adds ->
+  NoDup (map fst adds) ->
   let nm := nb_run adds major minor vendor in
   Permutation rp (alloc nm axes insts) ->
   let fin := extend nm rp in
@@ -300,14 +290,14 @@ Theorem source_to_fvar_ids_exist : forall adds major minor vendor axes insts rp,
   /\ (forall i, In i (kept_instances axes insts) ->
      exists id enc, reusable_name_id fin (i_name i) (is_default axes i) = Some id
                     /\ In ((id, enc), i_name i) fin
-                    /\ (is_default axes i = false -> 256 <= id))
+                    /\ instance_id_allowed (is_default axes i) id)
   /\ (forall i p, In i (kept_instances axes insts) -> i_ps i = Some p ->
      exists id enc, reusable_name_id fin p false = Some id
                     /\ 256 <= id /\ In ((id, enc), p) fin).
 Proof.
-  intros adds major minor vendor axes insts rp ND R nm P fin.
+  intros adds major minor vendor axes insts rp ND nm P fin.
   split; [apply nb_run_nonempty|].
-  apply Proofs.used_ids_exist; [apply nb_run_ids_reserved; assumption|exact P].
+  apply Proofs.used_ids_exist; [apply nb_run_nodup; exact ND|exact P].
 Qed.
 Print Assumptions source_to_fvar_ids_exist.
 
@@ -331,7 +321,8 @@ Proof.
 Qed.
 
 (* Outside the hypothesis: the same id added twice with strings that need
-   different encodings leaves the first record behind (stale key in `names`). *)
+   different encodings leaves the first record behind (stale key in `names`).
+   (Real code: UFO openTypeNameRecords can do this, known finding namebuilder-stale-record.) *)
 Example duplicate_id_leaves_stale_record :
   let out := nb_run [(1, [65]); (1, [66; 0x1D400])] 0 0 [78] in
   lookup (1, 1) out = Some [65] /\ lookup (1, 10) out = Some [66; 0x1D400].
